@@ -1,14 +1,22 @@
 """C10 — notes converge across clones and are never lost by sync (DESIGN §8 C10).
 
 Proof: lean/GitAiModel/Props/C10.lean over Model/Sync.lean (protocol model: bare remote + n
-clones, notes refs as (reach, map), ops commit / fetch / pull / push and the three steps of push).
+clones, notes refs as (reach, map) stored loose | packed | absent, ops commit / fetch / pull / push, the
+three steps of push, and repository maintenance (`git gc` / `git pack-refs --all`); the existence probe
+`ref_exists` is a parameter of the sync step, the theorems hold for every faithful probe).
+
+Extraction: extract/sync_ref_probes.py regenerates Extracted/SyncRefProbes.lean from refs.rs /
+sync_authorship.rs — how `ref_exists` asks (git show-ref/rev-parse --verify vs a file test), that no helper
+of the sync touches the file system itself, the merge-or-copy shape — and Props/C10.lean decides
+`extracted_ref_probe` on it. The model runs of the tie use the extracted probe.
 
 Tie (end-to-end): a bare remote and 2–3 clones are driven through generated orderings of
-commit / push / fetch / pull / raced push (/ foreign `notes add -f`, to validate git's
-`notes merge -s ours`) with the git-ai binary built from the working tree as the git proxy,
+commit / push / fetch / pull / raced push / `git gc` / `git pack-refs --all` in any clone or on the
+remote (/ foreign `notes add -f`, to validate git's `notes merge -s ours`) with the git-ai binary built from the working tree as the git proxy,
 so push_hooks / fetch_hooks / clone_hooks and sync_authorship.rs run for real. After every
 step every repository's `refs/notes/ai` (and the tracking ref) is read back — key set, note
-texts, number of reachable notes commits — plus which code commits it holds, and compared
+texts, number of reachable notes commits, and WHERE the ref is stored (loose file / packed-refs /
+absent) — plus which code commits it holds, and compared
 with what the Lean model predicts for the same order (oids canonicalised to `c<k>`, note
 texts to `n<k>` = k-th `notes add` of the scenario).
 
@@ -28,6 +36,15 @@ from vlib import e2e
 
 PROP = "C10"
 THEOREMS = [
+    "GitAi.Sync.extracted_ref_probe",
+    "GitAi.Sync.faithful_unique",
+    "GitAi.Sync.looseOnly_not_faithful",
+    "GitAi.Sync.maintenance_values",
+    "GitAi.Sync.no_loss_code",
+    "GitAi.Sync.convergence_code",
+    "GitAi.Sync.loose_only_probe_loses_note",
+    "GitAi.Sync.loose_only_probe_violates",
+    "GitAi.Sync.faithful_probe_keeps_note",
     "GitAi.Sync.merge_no_loss",
     "GitAi.Sync.merge_deletion_witness",
     "GitAi.Sync.merge_no_loss_reachable",
@@ -46,6 +63,9 @@ THEOREMS = [
 CORPUS = os.path.join(C.VERIF, "corpus", "C10", "scenarios.jsonl")
 TRK = "ai-remote/origin"
 WORKERS = 16
+EXTRACTED = os.path.join(C.LEAN, "GitAiModel", "Extracted", "SyncRefProbes.lean")
+PROBE = "show-ref-verify"      # what refs.rs:ref_exists is (set by phase_probe from the extraction)
+MAINT = {"gc": ["gc", "-q"], "packrefs": ["pack-refs", "--all"]}
 
 
 # ------------------------------------------------------------------ static shape of the source
@@ -69,6 +89,42 @@ def source_shape():
     if not mg or not re.search(r'"merge".*?"-s".*?"ours"', mg.group(0), re.S):
         bad.append("merge_notes_from_ref is not `notes merge -s ours`")
     return bad
+
+
+def phase_probe(res):
+    """extract/sync_ref_probes.py → Extracted/SyncRefProbes.lean (before the Lean build); sets PROBE"""
+    global PROBE
+    import importlib, sys
+    sys.path.insert(0, os.path.join(C.VERIF, "extract"))
+    import sync_ref_probes as X
+    importlib.reload(X)
+    name = "extract SyncRefProbes (how ref_exists asks; helpers of the sync go through git; merge-or-copy shape)"
+    try:
+        x, _ = X.main()
+    except Exception as e:
+        res.obligation(name, False, "extraction")
+        res.broken_tie(name, f"{type(e).__name__}: {e}")
+        PROBE = "unknown"
+        return None
+    res.obligation(name, True, "extraction")
+    PROBE = x["ref_exists"]["probe"]
+    res.extra["ref_probes"] = {"ref_exists": {"line": x["ref_exists"]["line"], "probe": PROBE, "facts": x["ref_exists"]["facts"]},
+                               "helpers": [{k: h[k] for k in ("name", "line", "git", "fs")} for h in x["helpers"]],
+                               "decisions": [{k: d[k] for k in ("fn", "line", "stmts", "nested")} for d in x["decisions"]]}
+    faithful = PROBE in ("show-ref-verify", "rev-parse-verify")
+    res.obligation("extraction: refs.rs:ref_exists asks git (show-ref/rev-parse --verify): sees loose and packed refs "
+                   "(Lean: extracted_ref_probe (1))", faithful, "extraction")
+    if not faithful:
+        res.broken_tie("extraction:ref-exists-probe", {"ref_exists": x["ref_exists"],
+                       "meaning": "the probe is not a git ref lookup; a ref stored only in packed-refs may be reported missing"})
+    fs = [h["name"] for h in x["helpers"] if h["fs"] and h["name"] != "ref_exists"]
+    shape = [d for d in x["decisions"] if not (d["stmts"] == ["probeTrk", "probeLoc", "merge", "copy"] and d["nested"] and not d["fs_markers"])]
+    res.obligation("extraction: helpers of the notes sync read/write refs through git only; fetch and push decide "
+                   "`if ref_exists(tracking) { if ref_exists(local) { merge } else { copy } }` (extracted_ref_probe (2), (3))",
+                   not fs and not shape, "extraction")
+    if fs or shape:
+        res.broken_tie("extraction:sync-ref-helpers", {"helpers with own file-system access": fs, "decisions": shape})
+    return x
 
 
 # ------------------------------------------------------------------ scenario execution
@@ -221,6 +277,20 @@ exit 0
         raw = {sha: self.text_of(repo, blob) for sha, blob in repo.notes_list(ref).items()}
         return {"notes": sorted([self.cname(s), self.nname(t)] for s, t in raw.items()), "n": cnt}, raw
 
+    def storage(self, repo, ref, bare=False):
+        """where refs/notes/<ref> lives: loose file, packed-refs entry, or nowhere (files backend)."""
+        gd = repo.path if bare else os.path.join(repo.path, ".git")
+        full = f"refs/notes/{ref}"
+        if os.path.isfile(os.path.join(gd, full)):
+            return "loose"
+        try:
+            for line in open(os.path.join(gd, "packed-refs")):
+                if line.rstrip("\n").endswith(" " + full):
+                    return "packed"
+        except OSError:
+            pass
+        return "absent"
+
     def holds(self, repo):
         shas = [e["sha"] for e in self.events if e["kind"] == "commit"]
         if not shas:
@@ -237,6 +307,7 @@ exit 0
         o = {"clones": []}
         raw = {"clones": []}
         o["remote"], raw["remote"] = self.read_ref(self.remote, "ai")
+        o["rst"] = self.storage(self.remote, "ai", bare=True)
         o["rhas"] = self.holds(self.remote)
         for cl in self.clones:
             if cl is None:
@@ -244,7 +315,8 @@ exit 0
                 continue
             loc, rloc = self.read_ref(cl, "ai")
             trk, _ = self.read_ref(cl, TRK)
-            o["clones"].append({"loc": loc, "trk": trk, "has": self.holds(cl)})
+            o["clones"].append({"loc": loc, "trk": trk, "locSt": self.storage(cl, "ai"), "trkSt": self.storage(cl, TRK),
+                                "has": self.holds(cl)})
             raw["clones"].append(rloc)
         return o, raw
 
@@ -333,6 +405,11 @@ exit 0
 
     def do(self, st, raw):
         kind = st[0]
+        if kind in ("rgc", "rpackrefs"):      # maintenance on the bare remote (server side: plain git)
+            rc, _, err = self.remote.plain_git(*MAINT[kind[1:]])
+            if rc != 0:
+                self.diag.append([f"{kind} remote", rc, err[-400:]])
+            return self.record(f"{kind} remote", [["maintRemote"]], raw)
         i = st[1]
         raw = self.ensure(i, raw)
         cl = self.clones[i]
@@ -364,6 +441,9 @@ exit 0
                 self.events.append({"sha": tgt["sha"], "who": i, "text": text, "kind": "rewrite"})
                 self.rewrote = True
             return self.record(f"rewrite c{i} c{idx}", [["rewrite", i, idx]], raw)
+        if kind in MAINT:                     # `git gc` / `git pack-refs --all` by the user, through the proxy
+            self.cmd(cl, f"{kind} c{i}", *MAINT[kind])
+            return self.record(f"{kind} c{i}", [["maintenance", i]], raw)
         if kind == "fetch":
             self.cmd(cl, f"fetch c{i}", "fetch", "origin")
             return self.record(f"fetch c{i}", [["fetch", i]], raw)
@@ -439,7 +519,7 @@ def run_model(worlds):
     """the same orders on the Lean model (one driver process for the whole batch).
     `C.run_driver` itself waits for the lake lock and rebuilds a missing driver; never wrap it in
     another `C.Lock("lake")` (flock is not re-entrant)."""
-    reqs = [{"op": "sync_run", "n": w.n, "steps": w.macro} for w in worlds]
+    reqs = [{"op": "sync_run", "n": w.n, "probe": PROBE, "steps": w.macro} for w in worlds]
     if not reqs:
         return []
     try:
@@ -463,8 +543,9 @@ def canon_model(out):
 
     steps = []
     for s in out["steps"]:
-        steps.append({"remote": ref(s["remote"]), "rhas": sorted(cn.get(c, f"?{c}") for c in s["rhas"]),
-                      "clones": [{"loc": ref(c["loc"]), "trk": ref(c["trk"]), "has": sorted(cn.get(x, f"?{x}") for x in c["has"])}
+        steps.append({"remote": ref(s["remote"]), "rst": s.get("rst"), "rhas": sorted(cn.get(c, f"?{c}") for c in s["rhas"]),
+                      "clones": [{"loc": ref(c["loc"]), "trk": ref(c["trk"]), "locSt": c.get("locSt"), "trkSt": c.get("trkSt"),
+                                  "has": sorted(cn.get(x, f"?{x}") for x in c["has"])}
                                  for c in s["clones"]],
                       "tags": s.get("tags", [])})
     return steps
@@ -483,13 +564,15 @@ def compare(world, out):
         where = None
         if m["remote"] != o["remote"]:
             where = ("remote", m["remote"], o["remote"])
+        elif m["rst"] != o["rst"]:
+            where = ("remote.storage", m["rst"], o["rst"])
         elif m["rhas"] != o["rhas"]:
             where = ("remote.has", m["rhas"], o["rhas"])
         else:
             for i, (mc, oc) in enumerate(zip(m["clones"], o["clones"])):
                 if oc is None:
-                    oc = {"loc": None, "trk": None, "has": []}
-                for f in ("loc", "trk", "has"):
+                    oc = {"loc": None, "trk": None, "locSt": "absent", "trkSt": "absent", "has": []}
+                for f in ("loc", "trk", "locSt", "trkSt", "has"):
                     if mc[f] != oc[f]:
                         where = (f"c{i}.{f}", mc[f], oc[f])
                         break
@@ -525,6 +608,12 @@ def gen_spec(rng, kernel):
         i = rng.randrange(n)
         if ncommit == 0 and r > 0.25:
             r = 0.0
+        if ncommit and rng.random() < 0.16:      # repository maintenance, clone or (less often) the bare remote
+            if rng.random() < 0.2:
+                steps.append([rng.choice(["rgc", "rpackrefs"]), 0])
+            else:
+                steps.append([rng.choice(["gc", "gc", "packrefs"]), i])
+            continue
         if r < 0.34:
             steps.append(["commit", i]); ncommit += 1
         elif r < 0.56:
@@ -540,6 +629,37 @@ def gen_spec(rng, kernel):
             steps.append(["rewrite", i, rng.randrange(max(1, ncommit))])
         else:
             steps.append(["commit", i]); ncommit += 1
+    return {"n": n, "lazy": lazy, "pull_mode": rng.choice(["ff", "merge"]), "steps": steps, "tail": True}
+
+
+def gen_gc_spec(rng):
+    """targeted: a clone with unpushed notes packs its refs, the remote's notes ref moves, the clone syncs —
+    the configuration in which `ref_exists(refs/notes/ai)` is asked about a packed ref while the tracking
+    ref has just been rewritten (loose)."""
+    n = rng.choice([2, 2, 3])
+    a = rng.randrange(n)
+    b = rng.choice([x for x in range(n) if x != a])
+    steps = []
+    for _ in range(rng.randint(0, 3)):                     # some history first (synced or not)
+        steps.append([rng.choice(["commit", "push", "fetch", "pull"]), rng.randrange(n)])
+    steps.append(["commit", a])
+    if rng.random() < 0.3:
+        steps.append(["commit", a])
+    moved = [["commit", b], ["push", b]]
+    maint = [[rng.choice(["gc", "gc", "packrefs"]), a]]
+    if rng.random() < 0.5:
+        mid = maint + moved
+    else:                                                  # gc after the remote moved: same configuration
+        mid = moved[:1] + maint + moved[1:] if rng.random() < 0.5 else moved + maint
+    steps += mid
+    if rng.random() < 0.25:
+        steps.append([rng.choice(["rgc", "rpackrefs"]), 0])
+    steps.append([rng.choice(["fetch", "pull", "push", "push"]), a])
+    for _ in range(rng.randint(0, 2)):
+        steps.append([rng.choice(["commit", "push", "fetch", "gc"]), rng.randrange(n)])
+    lazy = [False] * n
+    if n == 3 and rng.random() < 0.4:
+        lazy[[x for x in range(n) if x not in (a, b)][0]] = True
     return {"n": n, "lazy": lazy, "pull_mode": rng.choice(["ff", "merge"]), "steps": steps, "tail": True}
 
 
@@ -616,19 +736,32 @@ def replay(spec):
 
 
 # ------------------------------------------------------------------ exhaustive small scope (thorough)
-def enum_alphabet(n):
-    return [(k, i) for k in ("commit", "push", "fetch") for i in range(n)]
+def enum_alphabet(n, with_gc=False):
+    return [(k, i) for k in (("commit", "push", "fetch", "gc") if with_gc else ("commit", "push", "fetch")) for i in range(n)]
+
+
+def gc_useful(seq, a):
+    """a `gc` of clone i is explored only right after something happened in clone i since its last gc
+    (a second gc in a row, or a gc of a clone that did nothing yet, changes nothing)."""
+    if a[0] != "gc":
+        return True
+    for (k, i) in reversed(seq):
+        if i == a[1]:
+            return k != "gc"
+    return False
 
 
 def enum_subtree(args):
     """worker (own process): execute every ordering extending `prefix` up to `depth` steps with
     shared prefixes — the scratch tree is copied at each branching —, run pushAll+fetchAll at each
     leaf; returns the leaves' Recs and counters."""
-    n, depth, prefix, deadline = args
-    alphabet = enum_alphabet(n)
+    n, depth, prefix, deadline, with_gc = args
+    alphabet = enum_alphabet(n, with_gc)
     done, stats = [], {"nodes": 0, "leaves": 0, "complete": True}
 
     def real(kind, salt):
+        if kind == "gc":
+            return "packrefs" if salt % 4 == 1 else "gc"
         return "pull" if kind == "fetch" and (salt % 3 == 0) else kind
 
     def descend(world, raw, seq, steps):
@@ -641,7 +774,7 @@ def enum_subtree(args):
             world.tail(raw, light=True)
             done.append(Rec(world))
             return
-        kids = [a for a in alphabet if canonical_first_use(seq + [a])]
+        kids = [a for a in alphabet if canonical_first_use(seq + [a]) and gc_useful(seq, a)]
         for ci, a in enumerate(kids):
             if ci == len(kids) - 1:
                 child = world                      # the last child continues in the parent's tree
@@ -669,58 +802,86 @@ def enum_subtree(args):
         with w.env:
             w.setup()
             raw, seq = None, []
+            steps = []
             for a in prefix:
-                w.spec = dict(w.spec, steps=[list(x) for x in seq] + [[a[0], a[1]]])
-                raw = w.do([a[0], a[1]], raw)
+                steps.append([real(a[0], len(seq) + a[1]) if a[0] == "gc" else a[0], a[1]])
+                w.spec = dict(w.spec, steps=[list(x) for x in steps])
+                raw = w.do(steps[-1], raw)
                 seq.append(a)
-            descend(w, raw, seq, [[a[0], a[1]] for a in seq])
+            descend(w, raw, seq, steps)
     except Exception as e:
         w.errors.append(f"exception: {type(e).__name__}: {e}")
         done.append(Rec(w))
     return done, stats
 
 
-def enumerate_orderings(res, n, depth, rng, deadline):
-    """all orderings of ≤ depth steps over {commit, push, fetch|pull} × n clones, up to renaming
-    of clones (ids in order of first use). Every step of every ordering is compared with the
+def enumerate_orderings(res, n, depth, rng, deadline, with_gc=False):
+    """all orderings of ≤ depth steps over {commit, push, fetch|pull (, gc|pack-refs)} × n clones, up to renaming
+    of clones (ids in order of first use; a gc only where it can change something). Every step of every ordering is compared with the
     model and judged by the step oracles; every maximal ordering is followed by pushAll+fetchAll
     and the convergence oracle (shorter orderings are its prefixes). Search aid only."""
-    alphabet = enum_alphabet(n)
-    roots = [[a] for a in alphabet if canonical_first_use([a])]
+    alphabet = enum_alphabet(n, with_gc)
+    roots = [[a] for a in alphabet if canonical_first_use([a]) and gc_useful([], a)]
     for _ in range(min(2, depth) - 1):
-        roots = [r + [a] for r in roots for a in alphabet if canonical_first_use(r + [a])]
+        roots = [r + [a] for r in roots for a in alphabet if canonical_first_use(r + [a]) and gc_useful(r, a)]
     rng.shuffle(roots)
     total = {"nodes": 0, "leaves": 0, "complete": True, "subtrees": len(roots)}
     ok = True
     with concurrent.futures.ProcessPoolExecutor(WORKERS) as ex:
-        for done, st in ex.map(enum_subtree, [(n, depth, r, deadline) for r in roots]):
+        for done, st in ex.map(enum_subtree, [(n, depth, r, deadline, with_gc) for r in roots]):
             total["nodes"] += st["nodes"]; total["leaves"] += st["leaves"]
             total["complete"] = total["complete"] and st["complete"]
             outs = run_model(done)
             for w, out in zip(done, outs):
-                ok = account(res, w, out, f"enum{n}") and ok
+                ok = account(res, w, out, f"enum{n}{'gc' if with_gc else ''}") and ok
     return ok, total
 
 
 # ------------------------------------------------------------------ entry point
 def run(tier, seed):
+    """a run against a scratch copy of the repository (VERIF_REPO, mutation testing) regenerates the shared
+    Extracted/SyncRefProbes.lean from that copy; put the table of the real tree back afterwards"""
+    saved = open(EXTRACTED).read() if C._ALT and os.path.exists(EXTRACTED) else None
+    try:
+        return run_(tier, seed)
+    finally:
+        if saved is not None:
+            with C.Lock("lake"):
+                C.write_if_changed(EXTRACTED, saved)
+
+
+def run_(tier, seed):
     res = C.Result(PROP, tier, seed)
     res.rule = ("end-to-end: one case = one scenario (number of clones, which clones are created late, pull flavour, "
-                "ordered list of commit/push/fetch/pull/raced-push/foreign-rewrite steps, followed by pushAll+fetchAll) "
-                "executed on the git-ai binary built from the working tree and on the Lean model; after every step every "
-                "repository's notes (keys, texts, notes-commit count, tracking ref) and held commits are compared; "
-                "distinct = distinct scenario JSON")
+                "ordered list of commit/push/fetch/pull/raced-push/foreign-rewrite steps and `git gc` / `git pack-refs --all` "
+                "in a clone or on the bare remote, followed by pushAll+fetchAll) "
+                "executed on the git-ai binary built from the working tree and on the Lean model (with the existence probe "
+                "extracted from refs.rs); after every step every "
+                "repository's notes (keys, texts, notes-commit count, tracking ref, where each ref is stored: loose / packed / "
+                "absent) and held commits are compared; distinct = distinct scenario JSON")
     res.trusted = ["Lean 4.33 kernel (axioms: propext, Quot.sound, Classical.choice only)",
                    "vlib/props/c10.py scenario runner, canonicalisation and oracles; vlib/e2e.py",
                    "git 2.39.5 as the kernel: `notes merge -s ours` (transcribed as mergeVal/notesMerge), update-ref, "
-                   "fast-forward rule of a non-forced push, ref CAS on the receiving side — validated per step by the runs, not proved"]
+                   "fast-forward rule of a non-forced push, ref CAS on the receiving side; files ref backend: gc / pack-refs move "
+                   "loose refs into packed-refs without changing a value, a write of a new value makes the ref loose, a write of "
+                   "the same value is skipped; `show-ref --verify` / `rev-parse --verify` resolve loose and packed refs, a file "
+                   "test sees loose ones only (probeSem) — validated per step by the runs (storage is observed), not proved",
+                   "extract/sync_ref_probes.py (textual: argv literals of the exec_git call in ref_exists, file-system markers "
+                   "in the helpers, brace structure of the merge-or-copy decision)"]
     res.assumptions = ["operations are atomic at command granularity (the property's quantifier); the only sub-command "
                        "interleaving considered is another clone's whole push between the steps of a push (race_partial)",
                        "`git notes merge` does not fail (its error is ignored by the code; not modelled)",
+                       "repository maintenance = `git gc` / `git pack-refs --all` (refs move to packed-refs; gc prunes only "
+                       "unreachable objects older than two weeks); `git notes prune` is a user-level deletion of notes and stays "
+                       "outside, like every other deletion",
                        "notes are never deleted by git-ai (NoDeletion is an invariant of the model, merge_no_loss_reachable)",
                        "SingleWriter for `convergence`: only a commit's author writes its note "
                        "(convergence_needs_single_writer shows what happens otherwise)"]
-    C.phase_proofs(res, PROP, THEOREMS)
+    # how ref_exists asks is read off the source BEFORE the Lean build: Props/C10.lean decides
+    # `extracted_ref_probe` on the regenerated table
+    phase_probe(res)
+    if not C.phase_proofs(res, PROP, THEOREMS):
+        C.lake_build(["driver"])      # the model runs below need the driver even when a theorem no longer checks
     shape = source_shape()
     res.obligation("source shape: non-forced push refspec, forced fetch into tracking ref, merge -s ours", not shape, "extraction")
     if shape:
@@ -742,7 +903,8 @@ def run(tier, seed):
     nq = 40 if tier == "quick" else 320
     specs = [gen_spec(rng, kernel=(k % 3 == 2)) for k in range(nq)]
     ok2, _ = run_batch(res, specs, "generated")
-    tie_ok = tie_ok and ok2
+    ok2b, _ = run_batch(res, [gen_gc_spec(rng) for _ in range(16 if tier == "quick" else 160)], "generated-gc")
+    tie_ok = tie_ok and ok2 and ok2b
     if not res.violations:
         if tier == "thorough":
             budget = float(os.environ.get("VERIF_C10_BUDGET_S", "1500"))
@@ -751,8 +913,11 @@ def run(tier, seed):
         else:
             budget, d2, d3 = 100.0, 3, 0
         t0 = time.time()
-        ok3, st2 = enumerate_orderings(res, 2, d2, rng, t0 + budget * 0.6)
-        enum = {"2 clones": dict(st2, depth=d2)}
+        dg = int(os.environ.get("VERIF_C10_DEPTHGC", str(max(3, d2 - 1))))
+        okg, stg = enumerate_orderings(res, 2, dg, rng, t0 + budget * 0.35, with_gc=True)
+        ok3, st2 = enumerate_orderings(res, 2, d2, rng, t0 + budget * 0.7)
+        ok3 = ok3 and okg
+        enum = {"2 clones with gc/pack-refs": dict(stg, depth=dg), "2 clones": dict(st2, depth=d2)}
         ok4 = True
         if d3:
             ok4, st3 = enumerate_orderings(res, 3, d3, rng, t0 + budget)
@@ -762,9 +927,11 @@ def run(tier, seed):
         res.extra["enumeration"] = enum
         tie_ok = tie_ok and ok3 and ok4
     res.obligation("correspondence:sync-e2e (model prediction = observation after every step)", tie_ok and not shape, "correspondence")
-    need = ["model:fetch-copy", "model:pmerge-merge3", "model:send-rejected", "model:send-create", "model:send-ff", "model:fetch-ff"]
+    need = ["model:fetch-copy", "model:pmerge-merge3", "model:send-rejected", "model:send-create", "model:send-ff", "model:fetch-ff",
+            "model:maint-packs", "model:maintremote-packs", "model:probe:loc-packed-trk-loose", "model:probe:trk-packed"]
     missing = [t for t in need if not res.tags.get(t)]
-    res.obligation("coverage floor: copy / three-way merge / fast-forward / rejected / first push all exercised", not missing, "coverage")
+    res.obligation("coverage floor: copy / three-way merge / fast-forward / rejected / first push / gc packing refs / ref_exists "
+                   "asked about a packed local ref while the tracking ref is loose — all exercised", not missing, "coverage")
     if missing:
         res.broken_tie("coverage floor", {"model branches never taken": missing})
     if res.broken and not res.violations:
@@ -772,9 +939,9 @@ def run(tier, seed):
         tried = 0
         for s in range(seed + 1000, seed + 1004):
             r2 = random.Random(s)
-            run_batch(res, [gen_spec(r2, kernel=(k % 2 == 1)) for k in range(32)], f"search:{s}")
-            tried += 32
+            run_batch(res, [gen_spec(r2, kernel=(k % 2 == 1)) for k in range(32)] + [gen_gc_spec(r2) for _ in range(24)], f"search:{s}")
+            tried += 56
             if res.violations:
                 break
-        res.extra["search"] = f"{tried} extra generated scenarios (4 seeds), all oracles evaluated on the implementation"
+        res.extra["search"] = f"{tried} extra generated scenarios (up to 4 seeds, incl. gc-then-sync patterns), all oracles evaluated on the implementation"
     return res.finish()
